@@ -30,10 +30,13 @@ def overlay_files(pkgdir, pkgname, harness_files, native):
     return ov
 
 
+MODULE_INITS = [MODULE + '/prover.init', MODULE + '/server.init']
+
+
 def load(pkgdir, pkgname, harness_files, entries, extra_follow=(), patterns=None, extra=()):
     ov = overlay_files(pkgdir, pkgname, harness_files, native=False)
     cfg = {'dir': common.REPO, 'overlay': ov, 'patterns': patterns or ['./' + pkgdir if pkgdir not in ('.', '') else '.'],
-           'entries': [pkgpath(pkgdir) + '.' + e if '.' not in e else e for e in entries], 'follow': [MODULE] + list(extra_follow), 'extra': list(extra) + [pkgpath(pkgdir) + '.init']}
+           'entries': [pkgpath(pkgdir) + '.' + e if '.' not in e else e for e in entries], 'follow': [MODULE] + list(extra_follow), 'extra': list(extra) + [pkgpath(pkgdir) + '.init'], 'optional': MODULE_INITS}
     t = time.time()
     try:
         prog = gosym.load_program(cfg, common.scratch())
